@@ -32,10 +32,10 @@ MAX_CONFIRM = 6     # liveness verdicts re-run per check run
 def write_mc_cfg(path, *, chans="Chans1", msgs="MsgsA12", init_a="{0, 14}", init_b="{0, 14}", mode="set",
                  budget=0, deviations="{}", invariants=None, properties=None, emit=False, fair=False,
                  max_rtx=3, win=2, constraint=None, props='{"C01", "C12", "C13"}', rwnd=9, delay_sack="FALSE",
-                 action_constraint=None, rtx_burst=9):
+                 action_constraint=None, rtx_burst=9, initiators='{"A"}'):
     inv = invariants if invariants is not None else ["TypeOK", "PrefixDelivery", "OneToOne", "OpenOnce",
                                                      "OpenBeforeMessage", "ConsecutiveTsn", "WindowRespected", "NewDataWithinWindow"]
-    prop = properties if properties is not None else (["SetupIdempotent"] + (["EventuallyDelivered"] if fair else []))
+    prop = properties if properties is not None else (["SetupIdempotent"] + (["EventuallyDelivered", "T1Stops"] if fair else []))
     with open(path, "w") as f:
         f.write(f"""SPECIFICATION {'FairSpec' if fair else 'Spec'}
 CONSTANTS
@@ -48,6 +48,7 @@ CONSTANTS
   MaxRtx = {max_rtx}
   MaxT1 = 2
   Win = {win}
+  Initiators = {initiators}
   RtxBurst = {rtx_burst}
   Rwnd = {rwnd}
   DelaySack = {delay_sack}
@@ -546,6 +547,27 @@ def window_scenarios(scheds, rng, idle_ms=0, limit=40, seed=0):
         msgs += [{"from": "A", "sid": 1, "len": 5, "phase": 2}, {"from": "B", "sid": 1, "len": 5, "phase": 2}]
         out.append(scenario(f"zw{i:03d}", g, [chan(1)], msgs, cfg={"rwnd": rng.choice([1536, 2048, 2560, 3072])},
                             idle_ms=idle_ms, deadline_ms=DEADLINE_MS))
+    return out
+
+
+def gen_collision_schedules(ck, tier):
+    """INIT collision: both ends send INIT (RFC 4960 5.2.1, what browsers do). The budgeted model with both sides
+    initiating (one message) - every interleaving of the two handshakes, single faults on either side's set-up chunks;
+    invariants OpenOnce / SetupIdempotent, liveness EventuallyDelivered and T1Stops on the same model"""
+    path = os.path.join(ck.dir, f"sched_coll_{tier}_{os.getpid()}.ndjson")
+    tlc_mc_split(ck, "fifo_collision", "fifo/INIT collision (both ends initiate)", path, mode="fifo", budget=1,
+                 msgs="MsgsA1" if tier == "quick" else "MsgsA12", init_a="{14}", init_b="{0, 3}", initiators='{"A", "B"}',
+                 timeout=900)
+    return schedules_from(path)
+
+
+def collision_scenarios(scheds, rng, limit=30, seed=0, idle_ms=450):
+    """both real endpoints act as SCTP clients; the quiet window is longer than two maximal T1 intervals, so a set-up
+    timer that keeps running shows as chatter inside it"""
+    out = []
+    for i, f in enumerate([[]] + sample(scheds, limit, seed)):
+        out.append(scenario(f"ic{i:03d}", f, [chan(1)], basic_workload(rng, both=True), cfg={"both_init": True},
+                            idle_ms=idle_ms))
     return out
 
 
